@@ -54,6 +54,8 @@ def gen_case(rng, kind, subtype):
     ty -= lo * s
     els = [gg.transform(e, kind, s, tx, ty) for e in els]
     inert = [None] + gg.empty_elements(kind)
+    if kind == "point" and np.dtype(subtype).kind == "f":
+        inert.append([float("nan"), float("nan")])      # a present point without coordinates
     for _ in range(int(rng.integers(0, 4))):
         if n == 0:
             break
@@ -186,12 +188,12 @@ def check_case(ctx, case):
         return
     before = snapshot(obj, container)
     # exact total extent (doubled units)
-    coords = [v for e in vals if e is not None for v in gg.coords_of(kind, e)]
+    coords = [v for e in vals if not gg.is_inert(kind, e) for v in gg.coords_of(kind, e)]
     ext2 = None
     if coords:
         xs, ys = coords[0::2], coords[1::2]
         ext2 = [2 * min(xs), 2 * max(xs), 2 * min(ys), 2 * max(ys)]
-    els2 = [gg.transform(e, kind, 2, 0, 0) for e in vals]
+    els2 = [None if (kind == "point" and gg.is_inert(kind, e)) else gg.transform(e, kind, 2, 0, 0) for e in vals]
     has_inert = any(gg.is_inert(kind, e) for e in vals)
     indexed = getattr(arr, "_sindex", None) is not None
     ps = case["sindex"][1] if case["sindex"] else None
